@@ -279,7 +279,7 @@ def gen_combo(rng, cfg, kind):
     expect = {'opt': -opt if sense_max else opt, 'y0': y0, 't': tval, 'Y': Y, 'C': C,
               'py': py.partition(), 'pt': pt.partition(), 'mask': mask}
     pool = ['def', 'ort', 'grb'] if integer_y else ['def', 'lpg', 'ort', 'grb', 'eco']
-    return {'kind': 'combo-' + kind, 'ops': ops, 'expect': expect, 'labels': labels, 'intlab': intlab, 'S': S,
+    return {'kind': 'combo-' + kind, 'ops': ops, 'steps': steps, 'model_op': ops[0], 'expect': expect, 'labels': labels, 'intlab': intlab, 'S': S,
             'n': n, 'd': d, 'c': c, 'r': r, 'p': p, 'integer_y': integer_y, 'pool': pool, 'sense_max': sense_max}
 
 
@@ -481,6 +481,8 @@ def gen_case(seed, cfg):
                                                {'op': 'solve', 'm': 'm', 'solver': rng.choice(case['pool'])}]
         zv = [round(rng.uniform(-0.5, 0.5), 2) for _ in range(case.get('n', 1))]
         case['zval'] = zv
+        if k == 'combo-ro':
+            case['cvx_atoms'] = gen_cvx_atoms(rng, case['d'])
     return case
 
 
@@ -499,6 +501,31 @@ def _series_to_rows(val, S):
         rows = [np.asarray(v, float).reshape(-1) for v in val.values]
         return rows, [x for x in val.index]
     return [np.asarray(val, float).reshape(-1)] * S, None
+
+
+def rs_mod():
+    return interp.RS.get()
+
+
+def gen_cvx_atoms(rng, d):
+    """convex / concave atoms of the static decision t with a multiplier and an affine offset"""
+    out = []
+    te = ['v', 't']
+    for _ in range(rng.randint(1, 3)):
+        c = rng.choice([0.25, 2.5, 3.0, -1.5, 1.0])
+        off = rng.choice([0.0, 1.0, -2.0])
+        k = rng.choice(['abs', 'n1', 'n2', 'ninf', 'square', 'sumsqr'])
+        inner = ['-', te, ['c', [round(rng.uniform(-1, 1), 2) for _ in range(d)]]]
+        if k == 'abs':
+            a = ['f', 'abs', inner]
+        elif k in ('n1', 'n2', 'ninf'):
+            a = ['norm', inner, {'n1': 1, 'n2': 2, 'ninf': 'inf'}[k]]
+        elif k == 'square':
+            a = ['f', 'square', inner]
+        else:
+            a = ['f', 'sumsqr', inner]
+        out.append(['+', ['*', ['c', c], a], ['c', off]])
+    return out
 
 
 def _call_rows(obj, S):
@@ -781,6 +808,25 @@ def _check_solved(case, it, w, viol, stats, probe, props):
     except Exception as e:
         viol('C12', 'readback-raises', 'y() raised %r after an optimal solve' % (e,), exc=type(e).__name__)
         return
+    # convex atoms on decision expressions (multiplier and affine offset), evaluated at the solution
+    if case['kind'] == 'combo-ro' or case.get('cvx_dro'):
+        from sim.astx import Builder, evalnum
+        b = Builder(rs_mod().rso, it.env)
+        tvals = np.asarray(it.env['t'].get(), float).reshape(-1)
+        for atom in case.get('cvx_atoms', []):
+            stats['checks_c12'] += 1
+            try:
+                got = b.ev(atom)()
+            except Exception as e:
+                viol('C12', 'convex-eval-raises', 'evaluating %s raised %r' % (atom, e), exc=type(e).__name__, tags=['cvx_' + str(atom[1][1] if atom[0] == '+' else atom[1])])
+                continue
+            want = evalnum(atom, {'t': tvals})
+            g = np.asarray(got, float).reshape(-1)
+            w_ = np.asarray(want, float).reshape(-1)
+            if g.shape != w_.shape or np.max(np.abs(g - w_)) > 1e-6 * (1 + np.max(np.abs(w_))):
+                viol('C12', 'convex-eval', '%s evaluates to %s, NumPy evaluation at t=%s gives %s' % (atom, g, tvals, w_),
+                     tags=['cvx_eval'])
+                break
     # expression evaluation: decision-only affine expression, then bi-affine at a realisation
     zv = np.array(case['zval'][:n], float)
     zobj = it.env['z']
